@@ -60,6 +60,32 @@ def reload_ebb_calc(setting=None):
     return ebb_calc
 
 
+def fresh_clear(rng):
+    """The word 'clear' as a string object created at run time (read from a file, a JSON field,
+    .lower(), a str subclass ...): equal to the literal, but not the same interned object."""
+    c = rng.randrange(4)
+    if c == 0:
+        return "".join(["cl", "ear"])
+    if c == 1:
+        return b"clear".decode("ascii")
+    if c == 2:
+        return "CLEAR".lower()
+    return str("xclear"[1:])
+
+
+def failed_call(rng, fn, n_args):
+    """A call the caller gets wrong and survives (try/except): malformed arguments are outside every
+    statement, but whatever such a call leaves behind must not change later, valid answers."""
+    bad = [rng.choice((None, "bogus", "1e", [], object(), float("nan"), 2 ** 40)) if rng.random() < 0.6
+           else rng.randint(-5, 5) for _ in range(n_args)]
+    try:
+        fn(*bad)
+    except Exception:
+        pass
+    except BaseException:
+        raise
+
+
 def pick_ambient(rng):
     return Ambient(*rng.choice(AMBIENT))
 
